@@ -104,6 +104,8 @@ def generate(tier, rng):
         for _ in range(rng.randint(1, 4)):
             body += sg.stmt(rng.randint(1, 4), '', False)
         cases.append(Case(gen.join(pre + sg.pre + body), meta=dict(gen='nested-control', sample=k < 2)))
+    for _ in range(25 if tier == 'quick' else 500):      # cross-feature programs (gen.rich_program): every data kind, call mode and file kind mixed
+        cases.append(Case(gen.rich_program(rng), limits=dict(steps=30000), stdin=b'typed\n', meta=dict(gen='rich', sample=False)))
     return cases
 
 def intrinsic(case, io, ia):
